@@ -54,10 +54,10 @@ JoinFails(e) ==
   LET a == e.answer IN
   IF a.parse # "" THEN <<"C16.result">>
   ELSE Tag(Mirror(e), "C16.mirror")
-    \o (IF e.rxdelay < 0 \/ e.rxdelay > 15 THEN Tag(a.code # "Success", "C16.echo")   \* an RxDelay that cannot be echoed: never a Success with another value
-        ELSE IF AnyFault(e) THEN Tag(a.code # "Success", "C16.fault")      \* a storage fault: an error answer (still mirrored), never a Success
+    \o (IF AnyFault(e) THEN Tag(a.code # "Success", "C16.fault")      \* a storage fault: an error answer (still mirrored), never a Success
         ELSE IF ~e.known THEN Tag(a.code = "UnknownDevEUI", "C16.result")
-        ELSE IF e.kind = "join" /\ ~e.micok THEN Tag(a.code = "MICFailed", "C16.result")
+        ELSE IF e.kind = "join" /\ ~e.micok THEN Tag(a.code = "MICFailed", "C16.result")   \* whatever else is wrong with a request that cannot be authenticated
+        ELSE IF e.rxdelay < 0 \/ e.rxdelay > 15 THEN Tag(a.code # "Success", "C16.echo")   \* an RxDelay that cannot be echoed: never a Success with another value
         ELSE IF ~e.micok THEN <<>>                        \* rejoin-request with a wrong MIC: not covered by the statement
         ELSE IF e.kind # "join" /\ ~e.dl.optneg THEN Tag(a.code = "Success", "C16.result")   \* rejoin answers with OptNeg clear: DON'T-CARE beyond the result
         ELSE IF a.code # "Success" THEN <<"C16.result">>
